@@ -15,6 +15,8 @@ LEX = [
     {"name": "l06", "opts": {}, "rules": [("idu", "[\\p{L}_][\\p{L}\\p{Nd}_]*", "class", 0), ("kwE", "é", "kw", 0), ("ws", "[ \\n]+", "space", 0), ("arrow", "→", "tok", 0)], "prefixes": [b"", "é".encode(), b"\xe2\x86"]},
     {"name": "l07", "opts": {"tokenLine": False}, "rules": [("abcd", "abcd", "tok", 0), ("ab", "ab", "tok", 0), ("x", "[a-d]", "tok", -1), ("ws", " ", "space", 0)], "prefixes": [b"", b"abc", b"ab"]},
     {"name": "l08", "opts": {"scanBytes": True, "caseInsensitive": True, "tokenColumn": True}, "rules": [("kw", "ask", "tok", 0), ("id", "[a-z]+", "tok", -1), ("nl", "\\n", "space", 0)], "prefixes": [b"", b"AS", b"a\n"]},
+    # an explicit invalid_token rule in an otherwise inlinable grammar: its match (through a backtracking checkpoint of 'a') is a token, not a failure
+    {"name": "l09", "opts": {}, "rules": [("a", "a", "tok", 0), ("invalid_token", "abc", "tok", 0), ("ws", " ", "space", 0)], "prefixes": [b"", b"ab", b"a"]},
 ]
 
 
